@@ -1,5 +1,6 @@
 (* C18 — proofs.  Part 1: generic key-value facts; Part 2: block store (SaveBlock, PruneBlocks,
-   crash prefixes); Part 3: state store (save, PruneStates). *)
+   crash prefixes); Part 3: state store (save, PruneStates); Part 4: the composite prune of
+   consensus/state.go pruneBlocks over both stores. *)
 From Coq Require Import List ZArith Bool Lia.
 From TM Require Import Generated.Consts C18.Model.
 Import ListNotations.
@@ -524,7 +525,11 @@ Section Prune.
     pi_batch : forall w, In w (p_batch st) -> exists k, w = WDel k /\ dead h k;
     pi_keep : forall k, k <> KDesc -> ~ dead h k -> bget (p_db st) k = bget d0 k;
     pi_gone : forall k, dead h k -> bget (p_db st) k = None \/ In (WDel k) (p_batch st);
-    pi_pref : forall n, Consistent (breplay (firstn n (p_steps st)) d0)
+    pi_pref : forall n, Consistent (breplay (firstn n (p_steps st)) d0);
+    (* the range descriptor after every prefix of the write steps: base only moves up, to at
+       most the height the loop has reached; height never changes *)
+    pi_prange : forall n, b0 <= m_base (load_state (breplay (firstn n (p_steps st)) d0)) <= h /\
+                          m_height (load_state (breplay (firstn n (p_steps st)) d0)) = H
   }.
 
   Definition pst0 : pst :=
@@ -551,6 +556,7 @@ Section Prune.
     - reflexivity.
     - intros k D. exfalso. exact (dead_empty k D).
     - intros n. rewrite firstn_nil. exact cons_d0.
+    - intros n. rewrite firstn_nil. change (breplay [] d0) with d0. rewrite Hst. cbn. lia.
   Qed.
 
   Lemma range_of_cons : forall d bb, load_state d = {| m_base := bb; m_height := H |} ->
@@ -569,7 +575,7 @@ Section Prune.
   Lemma PI_flush : forall st nb, PI st nb -> nb <= H ->
       PI (flush st nb) nb /\ p_batch (flush st nb) = [] /\ m_base (p_mem (flush st nb)) = nb.
   Proof.
-    intros st nb P L. destruct P as [Pdb Pmem Ph Pb Pc Pbatch Pkeep Pgone Ppref].
+    intros st nb P L. destruct P as [Pdb Pmem Ph Pb Pc Pbatch Pkeep Pgone Ppref Prange].
     set (d := p_db st) in *.
     set (d1 := bset d KDesc (VDesc nb H)).
     set (d2 := fold_left (apply_wop bkey_eqb) (rev (p_batch st)) d1).
@@ -629,6 +635,17 @@ Section Prune.
           -- exact Pc.
           -- unfold desc_step. cbn. rewrite Ph. exact C1.
           -- rewrite firstn_nil. unfold desc_step. cbn. rewrite Ph. exact C2.
+      + assert (G : forall dd bb, load_state dd = {| m_base := bb; m_height := H |} -> b0 <= bb <= nb ->
+                    b0 <= m_base (load_state dd) <= nb /\ m_height (load_state dd) = H)
+          by (intros dd bb E Rb; rewrite E; cbn; lia).
+        intros n. unfold flush. cbn [p_steps].
+        destruct (firstn_app_cases n (p_steps st) [desc_step {| m_base := nb; m_height := m_height (p_mem st) |};
+                                                   SBatch (rev (p_batch st)) true]) as [[-> _]|[k [-> _]]].
+        * apply Prange.
+        * rewrite breplay_app, <- Pdb. fold d. destruct k as [|[|k]]; cbn [firstn].
+          -- exact (G d _ Estd Pb).
+          -- unfold desc_step. cbn. rewrite Ph. exact (G d1 nb Est1 ltac:(lia)).
+          -- rewrite firstn_nil. unfold desc_step. cbn. rewrite Ph. exact (G d2 nb Est2 ltac:(lia)).
     - reflexivity.
     - reflexivity.
   Qed.
@@ -636,7 +653,7 @@ Section Prune.
   Lemma PI_body : forall st h, PI st h -> h < H -> PI (prune_body B 1 h st) (h + 1).
   Proof.
     intros st h P L.
-    assert (P' := P). destruct P' as [Pdb Pmem Ph Pb Pc Pbatch Pkeep Pgone Ppref].
+    assert (P' := P). destruct P' as [Pdb Pmem Ph Pb Pc Pbatch Pkeep Pgone Ppref Prange].
     assert (Estd : load_state (p_db st) = {| m_base := m_base (p_mem st); m_height := H |}).
     { rewrite <- Pmem. destruct (p_mem st); cbn in *. subst. reflexivity. }
     destruct (range_of_cons _ _ Estd Pc) as [Rd Gd].
@@ -686,7 +703,8 @@ Section Prune.
         + destruct (Pgone k Dh) as [Hn|Hb]; [left; exact Hn|].
           right. rewrite rev_append_rev. apply in_or_app. right. exact Hb.
         + right. rewrite rev_append_rev. apply in_or_app. left. apply -> in_rev. exact Hin.
-      - exact Ppref. }
+      - exact Ppref.
+      - intros n. destruct (Prange n) as [Rb Rh]. split; [lia|exact Rh]. }
     destruct (p_pruned st1 mod B =? 0).
     - apply PI_flush; [exact P1 | lia].
     - exact P1.
@@ -732,7 +750,7 @@ Proof.
   specialize (P1 ltac:(lia)).
   unfold pst0 in P1. replace {| m_base := m_base m; m_height := m_height m |} with m in P1 by (destruct m; reflexivity).
   destruct (PI_flush d (m_base m) (m_height m) Hst R G _ r P1 ltac:(lia)) as (P2 & Eb & Ebase).
-  destruct P2 as [Pdb Pmem Ph Pb Pc Pbatch Pkeep Pgone Ppref].
+  destruct P2 as [Pdb Pmem Ph Pb Pc Pbatch Pkeep Pgone Ppref _].
   split; [exact Pdb|]. split; [exact Pmem|]. split.
   { destruct (p_mem (flush _ r)) as [bb hh]; cbn in *. subst. reflexivity. }
   split; [lia|]. split; [exact Ppref|]. split; [exact Pc|]. split; [exact Pkeep|].
@@ -909,4 +927,376 @@ Proof.
   replace (s_last st + 1 =? 1) with false in E by (symmetry; apply Z.eqb_neq; exact N).
   unfold save_vals_info in E. destruct (s_last st + 1 + 1 <? s_lhvc st); [discriminate|].
   inversion E. unfold save_params_info. replace (s_last st + 1 + 1) with (s_last st + 2) by lia. reflexivity.
+Qed.
+
+(* ================================================================== Part 4: the composite prune *)
+
+(* ---- PruneBlocks: the range descriptor after every prefix of its write steps *)
+Lemma prune_prefix_range : forall B m d r pruned m' l d',
+    wf m d -> prune_blocks B m d r = POk pruned m' l d' ->
+    m_base m <= r <= m_height m /\
+    load_state (breplay l d) = {| m_base := r; m_height := m_height m |} /\
+    forall n, m_base m <= m_base (load_state (breplay (firstn n l) d)) <= r /\
+              m_height (load_state (breplay (firstn n l) d)) = m_height m.
+Proof.
+  intros B m d r pruned m' l d' [Em C] E. unfold prune_blocks, prune_blocks_gen in E.
+  destruct (r <=? 0) eqn:E1; [discriminate|]. apply Z.leb_gt in E1.
+  destruct (m_height m <? r) eqn:E2; [discriminate|]. apply Z.ltb_ge in E2.
+  destruct (r <? m_base m) eqn:E3; [discriminate|]. apply Z.ltb_ge in E3.
+  assert (Hst : load_state d = {| m_base := m_base m; m_height := m_height m |}).
+  { rewrite <- Em. destruct m; reflexivity. }
+  assert (R : 1 <= m_base m <= m_height m /\ range_good d (m_base m) (m_height m)).
+  { unfold Consistent in C. rewrite Hst in C. cbn in C. destruct C as [[E0 _]|R]; [lia|exact R]. }
+  destruct R as [R G].
+  pose proof (PI_init d (m_base m) (m_height m) Hst R G) as P0.
+  pose proof (PI_loop B d (m_base m) (m_height m) Hst R G (Z.to_nat (r - m_base m)) _ _ P0) as P1.
+  replace (m_base m + Z.of_nat (Z.to_nat (r - m_base m))) with r in P1 by lia.
+  specialize (P1 ltac:(lia)).
+  unfold pst0 in P1. replace {| m_base := m_base m; m_height := m_height m |} with m in P1 by (destruct m; reflexivity).
+  destruct (PI_flush d (m_base m) (m_height m) Hst R G _ r P1 ltac:(lia)) as (P2 & Eb & Ebase).
+  destruct P2 as [Pdb Pmem Ph Pb Pc Pbatch Pkeep Pgone Ppref Prange].
+  assert (El : l = p_steps (flush (prune_loop B 1 (Z.to_nat (r - m_base m)) (m_base m)
+                   {| p_db := d; p_mem := m; p_batch := []; p_pruned := 0; p_steps := [] |}) r))
+    by (inversion E; reflexivity).
+  split; [lia|]. rewrite El. split.
+  - rewrite <- Pdb, <- Pmem. destruct (p_mem (flush _ r)) as [bb hh]; cbn in *. rewrite Ph, Ebase. reflexivity.
+  - exact Prange.
+Qed.
+
+(* ---- PruneStates: its write steps only delete records below [to] outside the keep set *)
+
+Lemma skey_eqb_eq : forall a b, skey_eqb a b = true <-> a = b.
+Proof.
+  intros a b; split; intro E.
+  - destruct a, b; simpl in E; try discriminate; rewrite ?Z.eqb_eq in E; subst; reflexivity.
+  - subst b. destruct a; simpl; rewrite ?Z.eqb_refl; reflexivity.
+Qed.
+
+Lemma zmem_spec : forall x l, zmem x l = true <-> In x l.
+Proof.
+  intros x l. unfold zmem. rewrite existsb_exists. split.
+  - intros [y [I E]]. apply Z.eqb_eq in E. subst. exact I.
+  - intros I. exists x. split; [exact I|apply Z.eqb_refl].
+Qed.
+
+Lemma sreplay_app : forall l1 l2 d, sreplay (l1 ++ l2) d = sreplay l2 (sreplay l1 d).
+Proof. intros. apply replay_app. Qed.
+
+Section SPrune.
+  Variables K B : Z.
+  Variable d : sdb.
+  Variables from to : Z.
+  Variables keepV keepP : list Z.
+
+  (* the records a retained height may resolve through *)
+  Definition sprot (k : skey) : Prop :=
+    match k with
+    | SKVals x => to <= x \/ In x keepV
+    | SKParams x => to <= x \/ In x keepP
+    | SKABCI x => to <= x
+    | SKState | SKLastABCI => True
+    end.
+  Definition harmless (w : swop) : Prop := match w with WDel k => ~ sprot k | WPut _ _ => False end.
+  Definition hstep (s : sstep) : Prop := match s with SBatch ws _ => Forall harmless ws | _ => False end.
+
+  (* the kept records already carry their set / parameters (save() writes them so: the record at
+     LastHeightChanged and the one at a checkpoint height are full) *)
+  Hypothesis HkV : forall x, In x keepV -> from <= x < to -> exists l v, load_vals_info d x = Some (l, Some v).
+  Hypothesis HkP : forall x, In x keepP -> from <= x < to -> exists l p, load_params_info d x = Some (l, Some p).
+
+  Lemma harmless_dels : forall ws, Forall harmless ws -> Forall (is_del skey sval) ws.
+  Proof.
+    intros ws F. induction F as [|w ws Hw F IH]; constructor; [|exact IH].
+    destruct w; [contradiction|exact Logic.I].
+  Qed.
+
+  Lemma sget_hstep : forall s dd k, hstep s -> sprot k -> sget (sapply dd s) k = sget dd k.
+  Proof.
+    intros [k0 v|k0 v|ws b] dd k Hs Pk; try contradiction. cbn in Hs.
+    unfold sapply, apply_step, sget.
+    apply (get_dels_notin _ _ _ skey_eqb_eq); [apply harmless_dels; exact Hs|].
+    intros w I E. rewrite Forall_forall in Hs. specialize (Hs w I).
+    destruct w as [k1 v1|k1]; [contradiction|]. cbn in E. subst k1. exact (Hs Pk).
+  Qed.
+
+  Lemma sget_hsteps : forall l dd k, Forall hstep l -> sprot k -> sget (sreplay l dd) k = sget dd k.
+  Proof.
+    induction l as [|s l IH]; intros dd k F Pk; [reflexivity|].
+    inversion F as [|? ? Hs F']; subst.
+    change (sreplay (s :: l) dd) with (sreplay l (sapply dd s)).
+    rewrite IH by assumption. apply sget_hstep; assumption.
+  Qed.
+
+  Lemma Forall_firstn : forall {A} (P : A -> Prop) n l, Forall P l -> Forall P (firstn n l).
+  Proof.
+    intros A P n l F. apply Forall_forall. intros x I. rewrite Forall_forall in F. apply F.
+    exact (in_firstn _ _ _ I).
+  Qed.
+
+  Record SI (st : sst) : Prop := {
+    si_db : q_db st = sreplay (q_steps st) d;
+    si_steps : Forall hstep (q_steps st);
+    si_batch : Forall harmless (q_batch st)
+  }.
+
+  Lemma SI_tail : forall h st (wv wp : list swop), h < to ->
+      Forall harmless wv -> Forall harmless wp -> SI st ->
+      SI (if (q_pruned st + 1) mod B =? 0
+          then {| q_db := sapply (q_db st) (SBatch (rev (rev_append (wv ++ wp ++ [WDel (SKABCI h)]) (q_batch st))) false);
+                  q_batch := []; q_pruned := q_pruned st + 1;
+                  q_steps := q_steps st ++ [SBatch (rev (rev_append (wv ++ wp ++ [WDel (SKABCI h)]) (q_batch st))) false];
+                  q_err := false |}
+          else {| q_db := q_db st; q_batch := rev_append (wv ++ wp ++ [WDel (SKABCI h)]) (q_batch st);
+                  q_pruned := q_pruned st + 1; q_steps := q_steps st; q_err := false |}).
+  Proof.
+    intros h st wv wp Hlt Hwv Hwp [Sdb Ss Sb].
+    assert (Hb : Forall harmless (rev_append (wv ++ wp ++ [WDel (SKABCI h)]) (q_batch st))).
+    { rewrite rev_append_rev. apply Forall_app. split; [|exact Sb]. apply Forall_rev.
+      apply Forall_app. split; [exact Hwv|]. apply Forall_app. split; [exact Hwp|].
+      constructor; [|constructor]. cbn. lia. }
+    destruct ((q_pruned st + 1) mod B =? 0).
+    - constructor; cbn [q_db q_steps q_batch].
+      + rewrite sreplay_app, <- Sdb. reflexivity.
+      + apply Forall_app. split; [exact Ss|]. constructor; [|constructor]. cbn. apply Forall_rev. exact Hb.
+      + constructor.
+    - constructor; cbn [q_db q_steps q_batch]; assumption.
+  Qed.
+
+  Lemma SI_body : forall h st, from <= h < to -> SI st -> SI (sprune_body K B keepV keepP h st).
+  Proof.
+    intros h st R S. assert (S' := S). destruct S' as [Sdb Ss Sb]. unfold sprune_body.
+    destruct (q_err st); [exact S|]. cbv zeta.
+    assert (HV0 : Forall harmless (@nil swop)) by constructor.
+    assert (HVd : ~ In h keepV -> Forall harmless [@WDel skey sval (SKVals h)]).
+    { intros N. constructor; [|constructor]. cbn. intros [G|I]; [lia|contradiction]. }
+    assert (HPd : ~ In h keepP -> Forall harmless [@WDel skey sval (SKParams h)]).
+    { intros N. constructor; [|constructor]. cbn. intros [G|I]; [lia|contradiction]. }
+    assert (Hh : h < to) by lia.
+    destruct (zmem h keepV) eqn:ZV.
+    - apply zmem_spec in ZV. destruct (HkV h ZV R) as (l & v & E).
+      assert (E' : load_vals_info (q_db st) h = Some (l, Some v)).
+      { unfold load_vals_info in *. rewrite Sdb, sget_hsteps; [exact E|exact Ss|]. cbn. right. exact ZV. }
+      rewrite E'.
+      destruct (zmem h keepP) eqn:ZP.
+      + apply zmem_spec in ZP. destruct (HkP h ZP R) as (lp & p & Ep).
+        assert (Ep' : load_params_info (q_db st) h = Some (lp, Some p)).
+        { unfold load_params_info in *. rewrite Sdb, sget_hsteps; [exact Ep|exact Ss|]. cbn. right. exact ZP. }
+        rewrite Ep'. apply SI_tail; auto.
+      + apply SI_tail; auto. apply HPd. intro I. apply zmem_spec in I. congruence.
+    - assert (NV : ~ In h keepV) by (intro I; apply zmem_spec in I; congruence).
+      destruct (zmem h keepP) eqn:ZP.
+      + apply zmem_spec in ZP. destruct (HkP h ZP R) as (lp & p & Ep).
+        assert (Ep' : load_params_info (q_db st) h = Some (lp, Some p)).
+        { unfold load_params_info in *. rewrite Sdb, sget_hsteps; [exact Ep|exact Ss|]. cbn. right. exact ZP. }
+        rewrite Ep'. apply SI_tail; auto.
+      + apply SI_tail; auto. apply HPd. intro I. apply zmem_spec in I. congruence.
+  Qed.
+
+  Lemma SI_loop : forall n h st, h < to -> from <= h - Z.of_nat n + 1 -> SI st ->
+      SI (sprune_loop K B keepV keepP n h st).
+  Proof.
+    induction n as [|n IH]; intros h st Hh Hf S; cbn [sprune_loop]; [exact S|].
+    apply IH; [lia|lia|]. apply SI_body; [lia|exact S].
+  Qed.
+End SPrune.
+
+(* every write step of PruneStates(from, to) deletes only records below [to] outside the keep
+   set computed from the records of [to]; hence after every prefix of its steps (completed
+   call, crash, or an error return) every protected record reads as before *)
+Definition keepV_of (K : Z) (d : sdb) (to : Z) : list Z :=
+  match load_vals_info d to with
+  | Some (vl, None) => [vl; last_stored_height_for K to vl]
+  | _ => []
+  end.
+Definition keepP_of (d : sdb) (to : Z) : list Z :=
+  match load_params_info d to with Some (pl, None) => [pl] | _ => [] end.
+
+Lemma prune_states_protected : forall K B d from to code l,
+    (forall x, In x (keepV_of K d to) -> from <= x < to -> exists l v, load_vals_info d x = Some (l, Some v)) ->
+    (forall x, In x (keepP_of d to) -> from <= x < to -> exists l p, load_params_info d x = Some (l, Some p)) ->
+    prune_states K B d from to = (code, l) ->
+    forall n k, sprot to (keepV_of K d to) (keepP_of d to) k -> sget (sreplay (firstn n l) d) k = sget d k.
+Proof.
+  intros K B d from to code l HkV HkP E n k Pk.
+  assert (F : Forall (hstep to (keepV_of K d to) (keepP_of d to)) l).
+  { unfold prune_states in E.
+    destruct ((from <=? 0) || (to <=? 0)); [inversion E; constructor|].
+    destruct (to <=? from) eqn:Eft; [inversion E; constructor|]. apply Z.leb_gt in Eft.
+    unfold keepV_of, keepP_of in *.
+    destruct (load_vals_info d to) as [[vl vv]|]; [|inversion E; constructor].
+    destruct (load_params_info d to) as [[pl pp]|]; [|inversion E; constructor].
+    set (kV := match vv with None => [vl; last_stored_height_for K to vl] | Some _ => [] end) in *.
+    set (kP := match pp with None => [pl] | Some _ => [] end) in *.
+    set (st0 := {| q_db := d; q_batch := []; q_pruned := 0; q_steps := []; q_err := false |}) in *.
+    assert (S0 : SI d to kV kP st0) by (constructor; cbn; [reflexivity|constructor|constructor]).
+    pose proof (SI_loop K B d from to kV kP HkV HkP (Z.to_nat (to - from)) (to - 1) st0
+                        ltac:(lia) ltac:(lia) S0) as [Sdb Ss Sb].
+    destruct (q_err _); inversion E; subst; [exact Ss|].
+    apply Forall_app. split; [exact Ss|]. constructor; [|constructor]. cbn. apply Forall_rev. exact Sb. }
+  apply (sget_hsteps to (keepV_of K d to) (keepP_of d to)); [|exact Pk]. apply Forall_firstn. exact F.
+Qed.
+
+(* ---- what the state database must look like (the shape save() produces), for the records of
+   the heights [to, hi] and for the records PruneStates(from, to) keeps *)
+Record StateShape (K : Z) (L Lp : Z -> Z) (sd : sdb) (from to hi : Z) : Prop := {
+  ss_L_le : forall h, L h <= h;
+  ss_L_stable : forall h x, L h <= x <= h -> L x = L h;
+  ss_Lp_le : forall h, Lp h <= h;
+  ss_Lp_stable : forall h x, Lp h <= x <= h -> Lp x = Lp h;
+  ss_vals : forall h, to <= h <= hi ->
+      exists o, load_vals_info sd h = Some (L h, o) /\ (o <> None -> L h = h \/ h mod K = 0);
+  ss_params : forall h, to <= h <= hi ->
+      exists o, load_params_info sd h = Some (Lp h, o) /\ (o <> None -> Lp h = h);
+  ss_keepV : forall x, from <= x < to -> x = L to \/ x = last_stored_height_for K to (L to) ->
+      exists l v, load_vals_info sd x = Some (l, Some v);
+  ss_keepP : forall x, from <= x < to -> x = Lp to ->
+      exists l p, load_params_info sd x = Some (l, Some p)
+}.
+
+Lemma prune_states_prefix_resolves : forall K B L Lp sd from to hi code l,
+    0 < K -> to <= hi -> StateShape K L Lp sd from to hi ->
+    prune_states K B sd from to = (code, l) ->
+    forall n h, to <= h <= hi ->
+      load_validators K (sreplay (firstn n l) sd) h = load_validators K sd h /\
+      load_consensus_params (sreplay (firstn n l) sd) h = load_consensus_params sd h /\
+      load_abci (sreplay (firstn n l) sd) h = load_abci sd h.
+Proof.
+  intros K B L Lp sd from to hi code l HK Hhi [Lle Lst Lple Lpst Sv Sp SkV SkP] E n h R.
+  destruct (Sv to ltac:(lia)) as (ot & Et & _). destruct (Sp to ltac:(lia)) as (pt & Ept & _).
+  assert (HkV : forall x, In x (keepV_of K sd to) -> from <= x < to -> exists l v, load_vals_info sd x = Some (l, Some v)).
+  { intros x I Rx. apply SkV; [exact Rx|]. unfold keepV_of in I. rewrite Et in I.
+    destruct ot; [contradiction|]. destruct I as [<-|[<-|[]]]; [left|right]; reflexivity. }
+  assert (HkP : forall x, In x (keepP_of sd to) -> from <= x < to -> exists l p, load_params_info sd x = Some (l, Some p)).
+  { intros x I Rx. apply SkP; [exact Rx|]. unfold keepP_of in I. rewrite Ept in I.
+    destruct pt; [contradiction|]. destruct I as [<-|[]]. reflexivity. }
+  pose proof (prune_states_protected K B sd from to code l HkV HkP E n) as Prot.
+  split; [|split].
+  - apply (vals_keep_set_sufficient K HK L Lle Lst sd _ to hi Sv); [| |exact R].
+    + intros x Rx. unfold load_vals_info. rewrite Prot; [reflexivity|]. cbn. left. exact Rx.
+    + intros lt Elt. unfold load_vals_info. rewrite Prot; [reflexivity|]. cbn. right.
+      unfold keepV_of. rewrite Elt. right; left; reflexivity.
+  - apply (params_keep_set_sufficient Lp Lpst sd _ to hi Sp); [| |exact R].
+    + intros x Rx. unfold load_params_info. rewrite Prot; [reflexivity|]. cbn. left. exact Rx.
+    + intros lt Elt. unfold load_params_info. rewrite Prot; [reflexivity|]. cbn. right.
+      unfold keepP_of. rewrite Elt. left; reflexivity.
+  - unfold load_abci. rewrite Prot; [reflexivity|]. cbn. lia.
+Qed.
+
+(* ---- the composite *)
+
+Lemma xreplay_app : forall l1 l2 d, xreplay (l1 ++ l2) d = xreplay l2 (xreplay l1 d).
+Proof. intros. unfold xreplay. apply fold_left_app. Qed.
+
+Lemma xreplay_XB : forall l bd sd, xreplay (map XB l) (bd, sd) = (breplay l bd, sd).
+Proof. induction l as [|s l IH]; intros bd sd; [reflexivity|]. cbn. rewrite IH. reflexivity. Qed.
+
+Lemma xreplay_XS : forall l bd sd, xreplay (map XS l) (bd, sd) = (bd, sreplay l sd).
+Proof. induction l as [|s l IH]; intros bd sd; [reflexivity|]. cbn. rewrite IH. reflexivity. Qed.
+
+Lemma firstn_map' : forall {A B} (f : A -> B) n l, firstn n (map f l) = map f (firstn n l).
+Proof. induction n as [|n IH]; intros [|x l]; cbn; try reflexivity. rewrite IH. reflexivity. Qed.
+
+(* pruneBlocks(retain) in the order of the code (block store first): after every prefix of the
+   composite's write steps - a crash at any write of either half, an error return of either
+   half, or completion - the block store's base has only moved up, its height is unchanged, and
+   every height from the (new) base to height + 1 resolves in the state store exactly as before
+   the call. *)
+Lemma composite_prune_prefix : forall K B L Lp m bd sd retain code m' steps,
+    0 < K -> wf m bd ->
+    StateShape K L Lp sd (m_base m) retain (m_height m + 1) ->
+    composite_prune K B m bd sd retain = (code, m', steps) ->
+    forall n,
+      m_base m <= m_base (load_state (fst (xreplay (firstn n steps) (bd, sd)))) /\
+      m_height (load_state (fst (xreplay (firstn n steps) (bd, sd)))) = m_height m /\
+      forall h, m_base (load_state (fst (xreplay (firstn n steps) (bd, sd)))) <= h <= m_height m + 1 ->
+        load_validators K (snd (xreplay (firstn n steps) (bd, sd))) h = load_validators K sd h /\
+        load_consensus_params (snd (xreplay (firstn n steps) (bd, sd))) h = load_consensus_params sd h /\
+        load_abci (snd (xreplay (firstn n steps) (bd, sd))) h = load_abci sd h.
+Proof.
+  intros K B L Lp m bd sd retain code m' steps HK W Sh E n.
+  assert (Triv : forall n, firstn n (@nil xstep) = []) by (intros; apply firstn_nil).
+  assert (Em : load_state bd = m) by (destruct W as [-> _]; reflexivity).
+  assert (T : steps = [] ->
+    m_base m <= m_base (load_state (fst (xreplay (firstn n steps) (bd, sd)))) /\
+    m_height (load_state (fst (xreplay (firstn n steps) (bd, sd)))) = m_height m /\
+    forall h, m_base (load_state (fst (xreplay (firstn n steps) (bd, sd)))) <= h <= m_height m + 1 ->
+      load_validators K (snd (xreplay (firstn n steps) (bd, sd))) h = load_validators K sd h /\
+      load_consensus_params (snd (xreplay (firstn n steps) (bd, sd))) h = load_consensus_params sd h /\
+      load_abci (snd (xreplay (firstn n steps) (bd, sd))) h = load_abci sd h).
+  { intros ->. rewrite Triv. cbn [xreplay fold_left fst snd]. rewrite Em. repeat split; lia. }
+  unfold composite_prune, composite_prune_gen in E.
+  destruct (retain <=? m_base m); [inversion E; subst; apply T; reflexivity|].
+  destruct (prune_blocks B m bd retain) as [c|pr m1 l d1] eqn:EP; [inversion E; subst; apply T; reflexivity|].
+  destruct (prune_states K B sd (m_base m) retain) as [sc sl] eqn:ES.
+  assert (Est : steps = map XB l ++ map XS sl) by (inversion E; reflexivity).
+  destruct (prune_prefix_range B m bd retain pr m1 l d1 W EP) as (Rr & Efull & Pref).
+  rewrite Est.
+  destruct (firstn_app_cases n (map XB l) (map XS sl)) as [[-> _]|[k [-> _]]].
+  - rewrite firstn_map', xreplay_XB. cbn [fst snd]. destruct (Pref n) as [Rb Rh].
+    split; [lia|]. split; [exact Rh|]. intros; repeat split; reflexivity.
+  - rewrite xreplay_app, xreplay_XB, firstn_map', xreplay_XS. cbn [fst snd]. rewrite Efull. cbn [m_base m_height].
+    split; [lia|]. split; [reflexivity|]. intros h Rh.
+    apply (prune_states_prefix_resolves K B L Lp sd (m_base m) retain (m_height m + 1) sc sl HK ltac:(lia) Sh ES k h Rh).
+Qed.
+
+(* "every block the block store retains has its state-store records": the validator set of
+   every height of [base, height + 1] loads, the consensus parameters and the ABCI responses of
+   every height of [base, height] load *)
+Definition Covered (K : Z) (d : xdb) : Prop :=
+  let m := load_state (fst d) in
+  forall h, m_base m <= h <= m_height m + 1 ->
+    load_validators K (snd d) h <> None /\
+    (h <= m_height m -> (exists p, load_consensus_params (snd d) h = Some (Some p)) /\ load_abci (snd d) h = true).
+
+Lemma composite_prune_covered : forall K B L Lp m bd sd retain code m' steps,
+    0 < K -> wf m bd ->
+    StateShape K L Lp sd (m_base m) retain (m_height m + 1) ->
+    composite_prune K B m bd sd retain = (code, m', steps) ->
+    Covered K (bd, sd) ->
+    forall n, Covered K (xreplay (firstn n steps) (bd, sd)).
+Proof.
+  intros K B L Lp m bd sd retain code m' steps HK W Sh E C n.
+  destruct (composite_prune_prefix K B L Lp m bd sd retain code m' steps HK W Sh E n) as (Rb & Rh & Eq).
+  unfold Covered in *. cbn [fst snd] in C. destruct W as [Em _]. rewrite <- Em in C.
+  intros h R. rewrite Rh in R. destruct (Eq h R) as (Ev & Ep & Ea). rewrite Ev, Ep, Ea, Rh.
+  apply C. lia.
+Qed.
+
+(* the same with the executable form of the hypothesis on the block store *)
+Lemma wf_of_audit : forall m d, audit d = (0, 0) -> m = load_state d -> wf m d.
+Proof. intros m d A E. split; [exact E|apply audit_spec; exact A]. Qed.
+
+Lemma prune_prefix_range_audit : forall B m d r pruned m' l d',
+    audit d = (0, 0) -> m = load_state d -> prune_blocks B m d r = POk pruned m' l d' ->
+    m_base m <= r <= m_height m /\
+    load_state (breplay l d) = {| m_base := r; m_height := m_height m |} /\
+    forall n, m_base m <= m_base (load_state (breplay (firstn n l) d)) <= r /\
+              m_height (load_state (breplay (firstn n l) d)) = m_height m.
+Proof. intros B m d r pruned m' l d' A E. apply prune_prefix_range. apply wf_of_audit; assumption. Qed.
+
+Lemma composite_prune_prefix_audit : forall K B L Lp m bd sd retain code m' steps,
+    0 < K -> audit bd = (0, 0) -> m = load_state bd ->
+    StateShape K L Lp sd (m_base m) retain (m_height m + 1) ->
+    composite_prune K B m bd sd retain = (code, m', steps) ->
+    forall n,
+      m_base m <= m_base (load_state (fst (xreplay (firstn n steps) (bd, sd)))) /\
+      m_height (load_state (fst (xreplay (firstn n steps) (bd, sd)))) = m_height m /\
+      forall h, m_base (load_state (fst (xreplay (firstn n steps) (bd, sd)))) <= h <= m_height m + 1 ->
+        load_validators K (snd (xreplay (firstn n steps) (bd, sd))) h = load_validators K sd h /\
+        load_consensus_params (snd (xreplay (firstn n steps) (bd, sd))) h = load_consensus_params sd h /\
+        load_abci (snd (xreplay (firstn n steps) (bd, sd))) h = load_abci sd h.
+Proof.
+  intros K B L Lp m bd sd retain code m' steps HK A E.
+  apply composite_prune_prefix; [exact HK|apply wf_of_audit; assumption].
+Qed.
+
+Lemma composite_prune_covered_audit : forall K B L Lp m bd sd retain code m' steps,
+    0 < K -> audit bd = (0, 0) -> m = load_state bd ->
+    StateShape K L Lp sd (m_base m) retain (m_height m + 1) ->
+    composite_prune K B m bd sd retain = (code, m', steps) ->
+    Covered K (bd, sd) ->
+    forall n, Covered K (xreplay (firstn n steps) (bd, sd)).
+Proof.
+  intros K B L Lp m bd sd retain code m' steps HK A E.
+  apply composite_prune_covered; [exact HK|apply wf_of_audit; assumption].
 Qed.
